@@ -138,6 +138,13 @@ func codecGen(t *rapid.T) *codecCase {
 		c.V.Size = rapid.IntRange(215, 225).Draw(t, "size") // 3-byte vs 9-byte header boundary (216)
 	}
 	c.V.Salt = rapid.Uint32Range(0, 60).Draw(t, "salt")
+	if rapid.IntRange(0, 11).Draw(t, "farmatch") == 0 {
+		// repetitions whose only match lies exactly one stride back (strides around 2^16 / 2^17: the widths of the match
+		// offset fields), 2-3 slots plus a bit
+		c.V.Class = "stride"
+		c.V.Salt = rapid.Uint32Range(0, 800).Draw(t, "stridesalt")
+		c.V.Size = verifkit.StrideOf(c.V.Salt)*rapid.IntRange(2, 3).Draw(t, "slots") + rapid.IntRange(0, 300).Draw(t, "extra")
+	}
 	return c
 }
 
@@ -163,6 +170,9 @@ func TestVerif_C10_Codec(t *testing.T) {
 		}
 		if len(src) > 65536 {
 			labels = append(labels, ">64K")
+		}
+		if c.V.Class == "stride" && c.Raw == nil {
+			labels = append(labels, "far_match")
 		}
 		sample := map[string]interface{}{"class": c.V.Class, "size": len(src), "salt": c.V.Salt, "level": c.Level}
 		st.Case(labels, err == nil && compressible && len(src) > 216, src, sample)
